@@ -39,6 +39,11 @@ import GlmVerif.Props.C02.T_itranspose
 import GlmVerif.Props.C02.T_iouter
 import GlmVerif.Props.C02.T_icompmult
 import GlmVerif.Props.C02.T_imulmv
+import GlmVerif.Props.C02.T_gdiag
+import GlmVerif.Props.C02.T_rowmajor_m
+import GlmVerif.Props.C02.T_colmajor_m
+import GlmVerif.Props.C02.T_rowmajor_v
+import GlmVerif.Props.C02.T_colmajor_v
 /-! every family table of C02 holds for the model generated from the current /repo -/
 namespace Glm.Props.C02
 open Glm Glm.Spec.C02 Glm.Gen.C02
@@ -83,5 +88,10 @@ theorem all_ok : ∀ f ∈ families, f.ok lookup = true := by
     (Family.ok_congr f_itranspose (fun ks => by rw [show f_itranspose.unit = "itranspose" from rfl, lookup_itranspose])).trans itranspose_ok,
     (Family.ok_congr f_iouter (fun ks => by rw [show f_iouter.unit = "iouter" from rfl, lookup_iouter])).trans iouter_ok,
     (Family.ok_congr f_icompmult (fun ks => by rw [show f_icompmult.unit = "icompmult" from rfl, lookup_icompmult])).trans icompmult_ok,
-    (Family.ok_congr f_imulmv (fun ks => by rw [show f_imulmv.unit = "imulmv" from rfl, lookup_imulmv])).trans imulmv_ok⟩
+    (Family.ok_congr f_imulmv (fun ks => by rw [show f_imulmv.unit = "imulmv" from rfl, lookup_imulmv])).trans imulmv_ok,
+    (Family.ok_congr f_gdiag (fun ks => by rw [show f_gdiag.unit = "gdiag" from rfl, lookup_gdiag])).trans gdiag_ok,
+    (Family.ok_congr f_rowmajor_m (fun ks => by rw [show f_rowmajor_m.unit = "rowmajor_m" from rfl, lookup_rowmajor_m])).trans rowmajor_m_ok,
+    (Family.ok_congr f_colmajor_m (fun ks => by rw [show f_colmajor_m.unit = "colmajor_m" from rfl, lookup_colmajor_m])).trans colmajor_m_ok,
+    (Family.ok_congr f_rowmajor_v (fun ks => by rw [show f_rowmajor_v.unit = "rowmajor_v" from rfl, lookup_rowmajor_v])).trans rowmajor_v_ok,
+    (Family.ok_congr f_colmajor_v (fun ks => by rw [show f_colmajor_v.unit = "colmajor_v" from rfl, lookup_colmajor_v])).trans colmajor_v_ok⟩
 end Glm.Props.C02
